@@ -116,7 +116,7 @@ def run_snap(kind: str, is_async: bool, a0: int, b0: int, s0: int, d1: int, b1: 
 # ---------------------------------------------------------------------------------------------
 # misuse, rejected at definition time
 # ---------------------------------------------------------------------------------------------
-N_MISUSE = 10
+N_MISUSE = 12
 
 
 def run_misuse(m: int, k: int) -> Tuple[bool, bool]:
@@ -210,6 +210,12 @@ def _misuse(m: int, k: int) -> Tuple[bool, bool]:
                 def m(self, xs: List[int]) -> None:
                     return None
             return False, False
+        if m == 10:  # unnamed capture with several parameters, all but one of them with a default value
+            icontract.snapshot(lambda xs, n=2: xs[:n])
+            return False, False
+        if m == 11:  # unnamed capture whose parameters all have default values
+            icontract.snapshot(lambda xs=(), n=2: xs[:n])
+            return False, False
         if m == 8:  # reading a name that was never captured
             seen = []  # type: List[str]
 
@@ -226,7 +232,7 @@ def _misuse(m: int, k: int) -> Tuple[bool, bool]:
                 drive(r)
             return len(seen) == 1 and "missing" in seen[0], True
     except ValueError:
-        return m in (0, 1, 2, 3, 4, 5, 9), True
+        return m in (0, 1, 2, 3, 4, 5, 9, 10, 11), True
     return False, False
 
 
